@@ -1,12 +1,13 @@
 use crate::framework::Property;
 
 pub mod c01;
+pub mod c02;
 pub mod c11;
 pub mod c15;
 pub mod selftest;
 
 pub fn all() -> Vec<Box<dyn Property>> {
-    vec![Box::new(c01::C01), Box::new(c11::C11), Box::new(c15::C15)]
+    vec![Box::new(c01::C01), Box::new(c02::C02), Box::new(c11::C11), Box::new(c15::C15)]
 }
 
 pub fn lookup(id: &str) -> Option<Box<dyn Property>> {
@@ -41,8 +42,11 @@ pub fn lowered_roundtrip(ctx: &mut crate::framework::Ctx, _idx: u64, rng: &mut c
                 let (vx, vy) = (crate::decode::tx::view(&x.payload), crate::decode::tx::view(&y.payload));
                 match (vx, vy) {
                     (Ok(vx), Ok(vy)) => {
-                        if vx.tx != vy.tx {
-                            ctx.violation("roundtrip:compiled-tx-differs", serde_json::json!({"source": src, "tx": txd.name}));
+                        // redeemer attachment of multi-UTxO inputs follows hash-set order in the code
+                        // under test (C08's subject): compare the order-insensitive body fields only
+                        let d = crate::decode::tx::diff(&vx.tx, &vy.tx);
+                        if !d.is_empty() {
+                            ctx.violation("roundtrip:compiled-tx-differs", serde_json::json!({"source": src, "tx": txd.name, "fields": d}));
                         }
                     }
                     _ => ctx.count("lowered/undecodable"),
